@@ -15,7 +15,12 @@
     kind 3  z2s(z_rho, X, Y, Z): the water column z_rho[:, J, I] of shape (N, jn, im)
        3 :: jn :: im :: x_n :: x_d :: y_n :: y_d :: ok :: j :: i   (j i absent when nothing was recorded)
     kind 4  nearest sampler sample3D(F, X, Y, K, A, "nearest")
-       4 :: N :: jn :: im :: x_n :: x_d :: y_n :: y_d :: k :: ok :: recorded triples *)
+       4 :: N :: jn :: im :: x_n :: x_d :: y_n :: y_d :: k :: ok :: recorded triples
+    kind 5  the jitted ladim.tracker.clip(X, Y, xmin, xmax, ymin, ymax): positions before and after.
+            The result must be exactly max(min(x, hi), lo) = [clip1 lo hi x]; when the call was made by the
+            tracker of a grid (has = 1) the limits it passed must be the model's grid.xmin + 0.01 etc.
+            (1e-9: the float sum i0 + 0.01 is rounded) and the results must be in the model's clip box.
+       5 :: has :: i0 :: i1 :: j0 :: j1 :: xlo(2) :: xhi(2) :: ylo(2) :: yhi(2) :: P :: P * [x y ox oy] (2 ints each) *)
 From Coq Require Import ZArith QArith List Bool.
 From Ladim Require Import Base.Num Model.Interp Corr.Run.
 Import ListNotations.
@@ -35,6 +40,13 @@ Definition verdict (ok : Z) (n jn im : Z) (model recorded : list idx) : bool :=
   if ok =? 1
   then subset model recorded && subset recorded model && forallb (in_shape n jn im) model
   else subset recorded model && negb (forallb (in_shape n jn im) model).
+
+(** apply [f] to [n] consecutive records of width [w] *)
+Fixpoint all_records (n : nat) (w : nat) (f : list Z -> bool) (l : list Z) : bool :=
+  match n with
+  | O => true
+  | S n' => f (firstn w l) && all_records n' w f (skipn w l)
+  end.
 
 Definition dummy : arr3 := {| a_n := 0; a_j := 0; a_i := 0; a_data := [] |}.
 
@@ -71,5 +83,25 @@ Definition check_case (c : list Z) : bool :=
       | Some r => verdict ok N jn im (snd (nearest dummy (mkQ xn xd) (mkQ yn yd) k)) r
       | None => false
       end
+  | 5 :: has :: i0 :: i1 :: j0 :: j1 :: xln :: xld :: xhn :: xhd :: yln :: yld :: yhn :: yhd :: P :: rest =>
+      let xlo := mkQ xln xld in let xhi := mkQ xhn xhd in
+      let ylo := mkQ yln yld in let yhi := mkQ yhn yhd in
+      let g := {| g_i0 := i0; g_i1 := i1; g_j0 := j0; g_j1 := j1 |} in
+      let tol := (1 # 1000000000)%Q in
+      (if has =? 1
+       then close tol xlo (g_xmin g + (1#100))%Q && close tol xhi (g_xmax g - (1#100))%Q &&
+            close tol ylo (g_ymin g + (1#100))%Q && close tol yhi (g_ymax g - (1#100))%Q
+       else true) &&
+      (Z.of_nat (length rest) =? 8 * P) &&
+      all_records (Z.to_nat P) 8 (fun r =>
+        match r with
+        | [xn; xd; yn; yd; oxn; oxd; oyn; oyd] =>
+            Qeq_bool (clip1 xlo xhi (mkQ xn xd)) (mkQ oxn oxd) &&
+            Qeq_bool (clip1 ylo yhi (mkQ yn yd)) (mkQ oyn oyd) &&
+            (if has =? 1
+             then close tol (mkQ oxn oxd) (clip_x g (mkQ xn xd)) && close tol (mkQ oyn oyd) (clip_y g (mkQ yn yd))
+             else true)
+        | _ => false
+        end) rest
   | _ => false
   end.
